@@ -26,13 +26,28 @@ def showORat : Option Rat → String
 def showMap (m : List (Str × Str)) : String :=
   ",".intercalate (m.map (fun (k, v) => String.ofList k ++ ":" ++ String.ofList v))
 
-def showOStr : Option Str → String
-  | none => "EXC"
-  | some x => String.ofList x
+def showOStr : Py.M Str → String
+  | .error _ => "EXC"
+  | .ok x => String.ofList x
 
-def showOList : Option (List Str) → String
-  | none => "EXC"
-  | some xs => "|".intercalate (xs.map String.ofList)
+def showOList : Py.M (List Str) → String
+  | .error _ => "EXC"
+  | .ok xs => "|".intercalate (xs.map String.ofList)
+
+def showJ : Py.J → String
+  | .null => "null"
+  | .str x => "\"" ++ String.ofList x ++ "\""
+  | .num x => showRat x
+
+def showJson (r : Py.M (List (Str × Py.J))) : String :=
+  match r with
+  | .error _ => "EXC"
+  | .ok o => ",".intercalate (o.map (fun (k, v) => String.ofList k ++ "=" ++ showJ v))
+
+def excName : Py.Exc → String
+  | .malformed => "MalformedError" | .mandatory => "MandatoryError" | .rhMalformed => "RHMalformedError"
+  | .rhMismatch => "RHScoreDoesNotMatch" | .keyError => "KeyError" | .typeError => "TypeError"
+  | .valueError => "ValueError" | .indexError => "IndexError" | .assertionError => "AssertionError" | .other => "other"
 
 def v4Metrics : List Str :=
   [c!"AV", c!"AC", c!"AT", c!"PR", c!"UI", c!"VC", c!"VI", c!"VA", c!"SC", c!"SI", c!"SA", c!"CR", c!"IR", c!"AR",
@@ -48,8 +63,8 @@ def handle (line : String) : String :=
       | .error _ => "rejected"
       | .ok m =>
         match Code2.init_tail (Code2.initSelf str m) str with
-        | none => "exc"
-        | some o => s!"ok\t{showORat o.base_score} {showORat o.temporal_score} {showORat o.environmental_score}\t{showOStr (Code2.clean_vector o)}\t{showOList (Code2.severities o)}\t{showOStr (Code2.temporal_vector o)}\t{showOStr (Code2.environmental_vector o)}"
+        | .error _ => "exc"
+        | .ok o => s!"ok\t{showORat o.base_score} {showORat o.temporal_score} {showORat o.environmental_score}\t{showOStr (Code2.clean_vector o)}\t{showOList (Code2.severities o)}\t{showOStr (Code2.temporal_vector o)}\t{showOStr (Code2.environmental_vector o)}\t{showJson (Code2.as_json o false false)};{showJson (Code2.as_json o false true)};{showJson (Code2.as_json o true false)};{showJson (Code2.as_json o true true)}"
   | ["3", s] =>
     match decodeStr s with
     | none => "bad-op"
@@ -58,9 +73,9 @@ def handle (line : String) : String :=
       | .error _ => "rejected"
       | .ok (i, m) =>
         match Code3.init_tail { Code3.initSelf str m with minor_version := some (i : Int) } str with
-        | none => "exc"
-        | some o =>
-          s!"ok\t{showORat o.base_score} {showORat o.temporal_score} {showORat o.environmental_score}\t{showMap o.metrics}\t{match o.original_metrics with | some x => showMap x | none => "None"}\t{showOStr (Code3.clean_vector o true)}\t{showOStr (Code3.clean_vector o false)}\t{showOList (Code3.severities o)}\t{showOStr (Code3.temporal_vector o)}\t{showOStr (Code3.environmental_vector o)}"
+        | .error _ => "exc"
+        | .ok o =>
+          s!"ok\t{showORat o.base_score} {showORat o.temporal_score} {showORat o.environmental_score}\t{showMap o.metrics}\t{match o.original_metrics with | some x => showMap x | none => "None"}\t{showOStr (Code3.clean_vector o true)}\t{showOStr (Code3.clean_vector o false)}\t{showOList (Code3.severities o)}\t{showOStr (Code3.temporal_vector o)}\t{showOStr (Code3.environmental_vector o)}\t{showJson (Code3.as_json o false false)};{showJson (Code3.as_json o false true)};{showJson (Code3.as_json o true false)};{showJson (Code3.as_json o true true)}"
   | ["4", s] =>
     match decodeStr s with
     | none => "bad-op"
@@ -75,10 +90,48 @@ def handle (line : String) : String :=
           let m := Model.V4.fillDefaults m1 Model.V4.defaultedMetrics
           let self := Code4.initSelf str m
           let ms := v4Metrics.map (fun k => match Code4.m self k with
-            | none => "EXC" | some none => "None" | some (some v) => String.ofList v)
-          let mv := match Code4.macroVector self with | none => "EXC" | some v => String.ofList v
+            | .error _ => "EXC" | .ok none => "None" | .ok (some v) => String.ofList v)
+          let mv := match Code4.macroVector self with | .error _ => "EXC" | .ok v => String.ofList v
           let orig := { self with original_metrics := m0 }
           s!"ok\t{mv}\t{" ".intercalate ms}\t{showOStr (Code4.clean_vector orig true)}\t{showOStr (Code4.clean_vector orig false)}"
+  | ["K2", s] =>       -- the whole translated constructor on ANY string: outcome class, scores, metric dict
+    match decodeStr s with
+    | none => "bad-op"
+    | some str =>
+      match Code2.construct str with
+      | .error e => "err\t" ++ excName e
+      | .ok o => s!"ok\t{showORat o.base_score} {showORat o.temporal_score} {showORat o.environmental_score}\t{showMap o.metrics}"
+  | ["K3", s] =>
+    match decodeStr s with
+    | none => "bad-op"
+    | some str =>
+      match Code3.construct str with
+      | .error e => "err\t" ++ excName e
+      | .ok o => s!"ok\t{showORat o.base_score} {showORat o.temporal_score} {showORat o.environmental_score}\t{showMap o.metrics}\t{match o.minor_version with | some i => toString i | none => "None"}"
+  | ["K4", s] =>       -- v4: parse_vector, check_mandatory, add_missing_optional as translated (compute_base_score is not)
+    match decodeStr s with
+    | none => "bad-op"
+    | some str =>
+      match (do let o ← Code4.parse_vector { (default : Code4.Self) with vector := str, metrics := [] }
+                let _ ← Code4.check_mandatory o
+                Code4.add_missing_optional o) with
+      | .error e => "err\t" ++ excName e
+      | .ok o => s!"ok\t{showMap o.metrics}\t{showMap o.original_metrics}"
+  | ["J4", s, num, den] =>   -- v4 compute_severity / as_json as translated, on the object the real code scored
+    match decodeStr s, num.toInt?, den.toNat? with
+    | some str, some n, some d =>
+      match Model.V4.parse str with
+      | .error _ => "rejected"
+      | .ok m0 =>
+        match Model.V4.fillModified m0 Model.V4.modifiedMetrics with
+        | none => "exc"
+        | some m1 =>
+          let m := Model.V4.fillDefaults m1 Model.V4.defaultedMetrics
+          let self := { Code4.initSelf str m with original_metrics := m0, base_score := some (mkRat n d) }
+          match Code4.compute_severity self with
+          | .error _ => "exc"
+          | .ok o => s!"ok\t{match o.severity with | some x => String.ofList x | none => "None"}\t{showJson (Code4.as_json o false false)};{showJson (Code4.as_json o false true)};{showJson (Code4.as_json o true false)};{showJson (Code4.as_json o true true)}"
+    | _, _, _ => "bad-op"
   | _ => "bad-op"
 
 partial def loop (h : IO.FS.Stream) (out : IO.FS.Stream) : IO Unit := do
